@@ -14,7 +14,8 @@ where
             BasicData::Char(value) => u32::from(value.clone()).to_le_bytes().to_vec(),
             BasicData::Symbol(value) => value.to_le_bytes().to_vec(),
             BasicData::ByteList(length) => {
-                let start = from + 1;
+                // addresses are relative to the data block, the slice below is taken from the whole heap
+                let start = self.data_block().start + from + 1;
                 let end = start + length;
                 self.data()[start..end]
                     .iter()
@@ -22,7 +23,8 @@ where
                     .collect::<Result<Vec<u8>, DataError>>()?
             }
             BasicData::CharList(length) => {
-                let start = from + 1;
+                // addresses are relative to the data block, the slice below is taken from the whole heap
+                let start = self.data_block().start + from + 1;
                 let end = start + length;
                 self.data()[start..end]
                     .iter()
@@ -31,7 +33,8 @@ where
                     .collect::<Vec<u8>>()
             }
             BasicData::SymbolList(length) => {
-                let start = from + 1;
+                // addresses are relative to the data block, the slice below is taken from the whole heap
+                let start = self.data_block().start + from + 1;
                 let end = start + length;
                 self.data()[start..end]
                     .iter()
